@@ -303,10 +303,14 @@ def _zone(ztype, number, detail):
     if ztype == 'vol':
         return {'type': 'Volume', 'id': number, 'vol': fmt(1.0 + 0.37 * number),
                 'detail': bool(detail)}
+    # the numbers of a sum of volumes / of a frontier are listed in either order (for a frontier
+    # the order is the crossing direction)
     if ztype == 'volsum':
-        return {'type': 'Volume Sum', 'id': [number, number + 100, number + 200][:1 + number % 3],
+        ids = [number, number + 100, number + 200][:1 + number % 3]
+        return {'type': 'Volume Sum', 'id': ids[::-1] if number % 2 else ids,
                 'vol': fmt(2.0 + 0.53 * number), 'detail': False}
-    return {'type': 'Frontier', 'id': [number, number + 100], 'vol': None, 'detail': bool(detail)}
+    return {'type': 'Frontier', 'id': [number + 100, number] if number % 2 else [number, number + 100],
+            'vol': None, 'detail': bool(detail)}
 
 
 def expand(case):
